@@ -7,7 +7,8 @@ plan = {"dir": scratch dir, "nfiles": 2..5, "workers": 1..4, "file": index
         of the file whose worker is hit, "point": name, "kind": "raise" |
         "raise_ude" | "raise_conn" | "raise_pipe" | "raise_eof" | "raise_os"
         | "raise_unpicklable" | "raise_local" | "exit" | "bad_utf8" |
-        "bad_gzip_crc" | "gzip_junk" | "none", "decode_errors": optional
+        "bad_gzip_crc" | "gzip_junk" | "seq_midsection" (single-file history
+        with a sequence definition, see seq_scenario) | "none", "decode_errors": optional
         FileSearcher(decode_errors=...), "k": ordinal for the
         counted points, "t1": seconds allowed for run 1, "t2": for run 2,
         "hold": seconds to stay at the point before firing (default 0),
@@ -395,11 +396,90 @@ def searcher(paths, workers):
     return s
 
 
+def seq_sections(results, sd):
+    out = []
+    for _sid, rs in results.find_sequence_sections(sd).items():
+        out.append(sorted((r.linenumber, r.get(1)) for r in rs))
+    return sorted(out)
+
+
+def seq_scenario(d):
+    """ a single-file (in-process) search fails INSIDE an open section of a
+    sequence definition; the same definition object is then used by a
+    further search in this process, which must see what a fresh one sees """
+    from searchkit import SequenceSearchDef
+
+    def mkdef():
+        return SequenceSearchDef(start=SearchDef(r'^start (\d+)'),
+                                 body=SearchDef(r'^body (\d+)'),
+                                 end=SearchDef(r'^end (\d+)'), tag='seq')
+    bad = os.path.join(d, 'seq_bad.txt')
+    with open(bad, 'wb') as f:
+        f.write(b'start 1\nbody 1\nend 1\nstart 2\nbody 2\n'
+                b'body \xff\xfe\nend 2\n')
+    nxt = os.path.join(d, 'seq_next.txt')
+    with open(nxt, 'wb') as f:
+        f.write(b'body 7\nend 7\nnoise\nstart 8\nbody 8\nend 8\n'
+                b'start 9\nbody 9\n')
+    fresh = mkdef()
+    s0 = FileSearcher()
+    s0.add(fresh, nxt)
+    expected = seq_sections(s0.run(), fresh)
+    OUT['expected_rows'] = sum(len(x) for x in expected)
+    sd = mkdef()
+    st1 = threading.Event()
+
+    def hang1():
+        OUT.update(run1='hang', run1_latency=None, fired=True,
+                   store_lock_held=probe(RS.RESULTS_STORE_LOCK),
+                   collection_lock_held=probe(S.RESULTS_COLLECTION_LOCK),
+                   left1=leftovers(0), run2='not-run')
+    watchdog('run1', PLAN['t1'], st1, hang1)
+    s1 = FileSearcher()
+    s1.add(sd, bad)
+    t0 = time.time()
+    try:
+        s1.run()
+        OUT['run1'] = 'returned'
+        OUT['run1_complete'] = False
+    except BaseException as exc:  # pylint: disable=broad-except
+        OUT['run1'] = type(exc).__name__
+    OUT['run1_latency'] = round(time.time() - t0, 2)
+    st1.set()
+    OUT['fired'] = True
+    OUT['left1_now'] = leftovers(0)
+    OUT['left1'] = leftovers()
+    OUT['store_lock_held'] = probe(RS.RESULTS_STORE_LOCK)
+    OUT['collection_lock_held'] = probe(S.RESULTS_COLLECTION_LOCK)
+    st2 = threading.Event()
+
+    def hang2():
+        OUT.update(run2='hang', run2_equal=False)
+    watchdog('run2', PLAN['t2'], st2, hang2)
+    s2 = FileSearcher()
+    s2.add(sd, nxt)
+    try:
+        got = seq_sections(s2.run(), sd)
+        OUT['run2'] = 'returned'
+        OUT['run2_equal'] = (got == expected)
+        if got != expected:
+            OUT['run2_got'] = got
+            OUT['run2_expected'] = expected
+    except BaseException as exc:  # pylint: disable=broad-except
+        OUT['run2'] = type(exc).__name__
+        OUT['run2_equal'] = False
+    st2.set()
+    OUT['left2'] = leftovers()
+    emit_and_exit()
+
+
 def main():
     global FIRED_FLAG
     d = PLAN['dir']
     os.makedirs(d, exist_ok=True)
     FIRED_FLAG = os.path.join(d, 'fired')
+    if PLAN['kind'] == 'seq_midsection':
+        seq_scenario(d)
     paths = []
     for i in range(PLAN['nfiles']):
         p = os.path.join(d, f"f{i}.txt")
